@@ -7,7 +7,7 @@ func VH_C06_NewUserSubset() {
 	srv, cc := vNewServer()
 	am := &vStubAM{}
 	srv.AccountManager = am
-	req := vBytes("req.access", 9)
+	req := vBytesEach("req.access", 9)
 	login := vBytes("req.login", 4)
 	t := hotline.NewTransaction(hotline.TranNewUser, cc.ID,
 		hotline.NewField(hotline.FieldUserLogin, login),
@@ -57,7 +57,7 @@ func VH_C06_UpdateUserCreateSubset() {
 	srv, cc := vNewServer()
 	am := &vStubAM{}
 	srv.AccountManager = am
-	req := vBytes("req.access", 9)
+	req := vBytesEach("req.access", 9)
 	data := []byte{0, 4}
 	data = append(data, vSubField(hotline.FieldUserLogin, []byte{0x9e, 0x9d})...) // obfuscated "ab"
 	data = append(data, vSubField(hotline.FieldUserName, []byte("n"))...)
